@@ -77,7 +77,7 @@ theorem setSeq_unfold (R : Heap → Ref → Res Ref) (h1 : Heap) (res : Ref) (rs
               match assign h3 res k c with
               | (h4, .ok ()) => (h4, .ok ())
               | (h4, .error _) => (h4, .error .key)
-            | (h3, .error _) => (h3, .error .key) := by
+            | (h3, .error e) => (h3, .error (wrapKey e)) := by
   unfold setSeq
   cases hk : k.asInt with
   | none => rfl
@@ -135,7 +135,7 @@ theorem setMap_unfold (R : Heap → Ref → Res Ref) (h1 : Heap) (res : Ref) (es
         match assign h3 res k c with
         | (h4, .ok ()) => (h4, .ok ())
         | (h4, .error _) => (h4, .error .key)
-      | (h3, .error _) => (h3, .error .key) := by
+      | (h3, .error e) => (h3, .error (wrapKey e)) := by
   unfold setMap mapPre
   cases dictGet es k.toDKey <;> rfl
 
@@ -155,6 +155,114 @@ theorem setMap_frame {S : Ref → Prop} {R : Heap → Ref → Res Ref} (hR : ∀
   · rename_i h3 _ hRe
     rw [hRe] at hr
     exact hp.trans hr
+
+/-! ## the ndarray arm: only the buffer of `result` is written -/
+
+theorem ndCopy_fst (h : Heap) (b off : Nat) (shape : List Nat) :
+    (ndCopy h b off shape).1 = (h.push (.buf (ndElems h b off shape))).push (.nd h.size 0 shape) := rfl
+
+theorem ndCopy_snd (h : Heap) (b off : Nat) (shape : List Nat) : (ndCopy h b off shape).2 = h.size + 1 := by
+  simp [ndCopy, alloc]
+
+theorem ndCopy_extends (h : Heap) (b off : Nat) (shape : List Nat) : Extends h (ndCopy h b off shape).1 := by
+  rw [ndCopy_fst]; exact (extends_push _ _).trans (extends_push _ _)
+
+theorem ndItem_fst (h : Heap) (b o : Nat) (inner : List Nat) :
+    ∃ n, (ndItem h b o inner).1 = h.push n ∧ (ndItem h b o inner).2 = h.size ∧
+      (n = .leaf (.int ((bufOf h b).getD o 0)) ∧ inner = [] ∨ n = .nd b o inner ∧ inner ≠ []) := by
+  unfold ndItem
+  split
+  · exact ⟨_, rfl, rfl, Or.inl ⟨rfl, rfl⟩⟩
+  · rename_i hne; exact ⟨_, rfl, rfl, Or.inr ⟨rfl, by intro e; exact hne e⟩⟩
+
+theorem ndItem_extends (h : Heap) (b o : Nat) (inner : List Nat) : Extends h (ndItem h b o inner).1 := by
+  obtain ⟨n, h1, _, _⟩ := ndItem_fst h b o inner
+  rw [h1]; exact extends_push _ _
+
+theorem ndWrite_frame {S : Ref → Prop} (h : Heap) {b : Ref} (o : Nat) (ys : List Int) (hb : S b) :
+    FrameExcept S h (ndWrite h b o ys) := by
+  unfold ndWrite
+  split
+  · exact frame_write _ _ hb
+  · exact FrameExcept.refl _ _
+
+@[simp] theorem ndWrite_size (h : Heap) (b o : Nat) (ys : List Int) : (ndWrite h b o ys).size = h.size := by
+  unfold ndWrite; split <;> simp
+
+/-- the four components chosen by the first line of `setNd` -/
+def ndPre (inPlace : Bool) (h : Heap) (tree b off : Nat) (shape : List Nat) : Heap × Ref × Nat × Nat :=
+  if inPlace then (h, tree, b, off) else ((ndCopy h b off shape).1, (ndCopy h b off shape).2, h.size, 0)
+
+theorem setNd_unfold (R : Heap → Ref → Res Ref) (inPlace : Bool) (h : Heap) (tree b off : Nat)
+    (shape : List Nat) (k : PKey) :
+    setNd R inPlace h tree b off shape k =
+      match shape with
+      | [] => ((ndPre inPlace h tree b off shape).1, .error .key)
+      | n :: inner =>
+        match k.asInt with
+        | none => ((ndPre inPlace h tree b off shape).1, .error .key)
+        | some i =>
+          if i = (n : Int) then ((ndPre inPlace h tree b off shape).1, .error .assertion)
+          else
+            match resolveIdx n i with
+            | none => ((ndPre inPlace h tree b off shape).1, .error .key)
+            | some j =>
+              match R (ndItem (ndPre inPlace h tree b off shape).1 (ndPre inPlace h tree b off shape).2.2.1
+                    ((ndPre inPlace h tree b off shape).2.2.2 + j * prod inner) inner).1
+                  (ndItem (ndPre inPlace h tree b off shape).1 (ndPre inPlace h tree b off shape).2.2.1
+                    ((ndPre inPlace h tree b off shape).2.2.2 + j * prod inner) inner).2 with
+              | (h3, .error e) => (h3, .error (wrapKey e))
+              | (h3, .ok c) =>
+                match coerce h3 c inner with
+                | none => (h3, .error .key)
+                | some ys => (ndWrite h3 (ndPre inPlace h tree b off shape).2.2.1
+                    ((ndPre inPlace h tree b off shape).2.2.2 + j * prod inner) ys,
+                    .ok (ndPre inPlace h tree b off shape).2.1) := by
+  unfold setNd ndPre
+  cases inPlace <;> rfl
+
+theorem ndPre_frame (S : Ref → Prop) (inPlace : Bool) (h : Heap) (tree b off : Nat) (shape : List Nat) :
+    FrameExcept S h (ndPre inPlace h tree b off shape).1 := by
+  unfold ndPre
+  cases inPlace
+  · exact (ndCopy_extends h b off shape).frame S
+  · exact FrameExcept.refl _ _
+
+/-- `setNd` changes, besides what the recursion changes, only the buffer of `result`: the caller's buffer
+`b` in place, the fresh buffer `h.size` otherwise. -/
+theorem setNd_frame {S : Ref → Prop} {R : Heap → Ref → Res Ref} (hR : ∀ h c, FrameExcept S h (R h c).1)
+    (inPlace : Bool) (h : Heap) (tree b off : Nat) (shape : List Nat) (k : PKey)
+    (hb : S (ndPre inPlace h tree b off shape).2.2.1) :
+    FrameExcept S h (setNd R inPlace h tree b off shape k).1 := by
+  rw [setNd_unfold]
+  have hp := ndPre_frame S inPlace h tree b off shape
+  split
+  · exact hp
+  · split
+    · exact hp
+    · split
+      · exact hp
+      · split
+        · exact hp
+        · rename_i n inner _ i _ _ _ j _
+          have hi := (ndItem_extends (ndPre inPlace h tree b off (n :: inner)).1
+            (ndPre inPlace h tree b off (n :: inner)).2.2.1
+            ((ndPre inPlace h tree b off (n :: inner)).2.2.2 + j * prod inner) inner).frame S
+          have hr := hR (ndItem (ndPre inPlace h tree b off (n :: inner)).1
+            (ndPre inPlace h tree b off (n :: inner)).2.2.1
+            ((ndPre inPlace h tree b off (n :: inner)).2.2.2 + j * prod inner) inner).1
+            (ndItem (ndPre inPlace h tree b off (n :: inner)).1
+            (ndPre inPlace h tree b off (n :: inner)).2.2.1
+            ((ndPre inPlace h tree b off (n :: inner)).2.2.2 + j * prod inner) inner).2
+          split
+          · rename_i h3 e hRe
+            rw [hRe] at hr
+            exact hp.trans (hi.trans hr)
+          · rename_i h3 c hRe
+            rw [hRe] at hr
+            split
+            · exact hp.trans (hi.trans hr)
+            · exact hp.trans (hi.trans (hr.trans (ndWrite_frame _ _ _ hb)))
 
 /-! ## `_default_tree` only allocates -/
 
@@ -245,5 +353,10 @@ theorem setPath_extends (strict : Bool) (h : Heap) (t : Ref) (p : Path) (v : Ref
       split
       · rename_i h2 hs; rw [hs] at he; exact he
       · rename_i h2 e hs; rw [hs] at he; exact he
+    · -- ndarray: the copy has a fresh buffer (cell `h.size`), the only cell written
+      rename_i b off shape _
+      have hf := setNd_frame (S := (· = h.size)) (hR _) false h t b off shape k (by simp [ndPre])
+      exact hf.extends_of_fresh (Extends.refl h) (fun r hr => by simp [hr])
+    · exact Extends.refl _
 
 end MlModel.Tree
